@@ -22,6 +22,7 @@ impl SchemaMut {
 		let mut state = WriteCanonicalFormState {
 			w: ErrorConversionWriter(Rabin::default()),
 			named_type_written: vec![false; self.nodes.len()],
+			unnamed_type_being_written: vec![false; self.nodes.len()],
 		};
 		state.write_canonical_form(self, SchemaKey::from_idx(0))?;
 		Ok(state.w.0.finish())
@@ -36,6 +37,7 @@ impl SchemaMut {
 		let mut state = WriteCanonicalFormState {
 			w: ErrorConversionWriter(String::new()),
 			named_type_written: vec![false; self.nodes.len()],
+			unnamed_type_being_written: vec![false; self.nodes.len()],
 		};
 		state.write_canonical_form(self, SchemaKey::from_idx(0))?;
 		Ok(state.w.0)
@@ -45,6 +47,10 @@ impl SchemaMut {
 struct WriteCanonicalFormState<W> {
 	w: ErrorConversionWriter<W>,
 	named_type_written: Vec<bool>,
+	/// Only named types may contain themselves (they are then written by name): an array, map
+	/// or union that ends up containing itself without going through a named type can't be
+	/// written (it would recurse indefinitely)
+	unnamed_type_being_written: Vec<bool>,
 }
 
 impl<W: Write> WriteCanonicalFormState<W> {
@@ -60,6 +66,18 @@ impl<W: Write> WriteCanonicalFormState<W> {
 			.nodes
 			.get(key.idx)
 			.ok_or_else(|| SchemaError::new("SchemaKey refers to non-existing node"))?;
+
+		let is_unnamed_container = matches!(
+			node.type_,
+			RegularType::Array(_) | RegularType::Map(_) | RegularType::Union(_)
+		);
+		if is_unnamed_container {
+			if std::mem::replace(&mut self.unnamed_type_being_written[key.idx], true) {
+				return Err(SchemaError::new(
+					"Schema contains a cycle that can't be avoided using named references",
+				));
+			}
+		}
 
 		let mut first_time = true;
 		let should_not_write_only_name =
@@ -175,6 +193,9 @@ impl<W: Write> WriteCanonicalFormState<W> {
 					self.w.write_str("]}")?;
 				}
 			}
+		}
+		if is_unnamed_container {
+			self.unnamed_type_being_written[key.idx] = false;
 		}
 		Ok(())
 	}
